@@ -1,5 +1,3 @@
-//go:build wip_c10
-
 package kit
 
 // Reflect-surface abstract interpreter (K6 for reflection-heavy code).
@@ -60,7 +58,7 @@ func RMaskStr(m uint32) string {
 	if m == RAllValid {
 		return "{any kind}"
 	}
-	if bitsSet(m) > 14 {
+	if rBitsSet(m) > 14 {
 		return "{all but " + strings.TrimPrefix(RMaskStr(RAllKinds&^m), "{")
 	}
 	var out []string
@@ -76,7 +74,7 @@ func RMaskStr(m uint32) string {
 	return "{" + strings.Join(out, ",") + "}"
 }
 
-func bitsSet(m uint32) int {
+func rBitsSet(m uint32) int {
 	n := 0
 	for ; m != 0; m &= m - 1 {
 		n++
@@ -164,44 +162,44 @@ func (ri *RInterp) Mask(ent string, s S) uint32 {
 	return RAllValid
 }
 
-func setMask(s S, ent string, m uint32) S { return s.Set("K:"+ent, strconv.FormatUint(uint64(m), 10)) }
+func rSetMask(s S, ent string, m uint32) S { return s.Set("K:"+ent, strconv.FormatUint(uint64(m), 10)) }
 
 // entIs reports whether key k (after its tag) speaks about ent or an entity
 // derived from it.
-func entCovers(ent, name string) bool {
+func rEntCovers(ent, name string) bool {
 	return name == ent || strings.HasPrefix(name, ent+".")
 }
 
-// resetEnt forgets everything about ent and entities derived from it.
-func resetEnt(s S, ent string) S {
-	return filterKeys(s, func(tag, a, b string) bool {
+// rResetEnt forgets everything about ent and entities derived from it.
+func rResetEnt(s S, ent string) S {
+	return rFilterKeys(s, func(tag, a, b string) bool {
 		switch tag {
 		case "K", "nn", "cs", "mk":
-			return entCovers(ent, a)
+			return rEntCovers(ent, a)
 		case "rl", "rc":
-			return entCovers(ent, b)
+			return rEntCovers(ent, b)
 		}
 		return false
 	})
 }
 
-// killVal forgets the value-level facts (nil-ness, length relations) of ent
+// rKillVal forgets the value-level facts (nil-ness, length relations) of ent
 // and of values reached through it; kinds are type-level and stay.
-func killVal(s S, ent string) S {
-	return filterKeys(s, func(tag, a, b string) bool {
+func rKillVal(s S, ent string) S {
+	return rFilterKeys(s, func(tag, a, b string) bool {
 		switch tag {
 		case "nn", "mk":
-			return entCovers(ent, a)
+			return rEntCovers(ent, a)
 		case "rl", "rc":
-			return entCovers(ent, b)
+			return rEntCovers(ent, b)
 		}
 		return false
 	})
 }
 
-// filterKeys deletes the keys for which drop(tag, part1, part2) holds; keys
+// rFilterKeys deletes the keys for which drop(tag, part1, part2) holds; keys
 // have the form tag:part1 or tag:part1|part2.
-func filterKeys(s S, drop func(tag, a, b string) bool) S {
+func rFilterKeys(s S, drop func(tag, a, b string) bool) S {
 	for _, k := range s.Keys() {
 		i := strings.IndexByte(k, ':')
 		if i < 0 {
@@ -307,6 +305,11 @@ func (ri *RInterp) entOf(e ast.Expr, s S, ents map[ast.Expr]string) string {
 			return ri.entOf(x.X, s, ents)
 		}
 	}
+	if ta, ok := e.(*ast.TypeAssertExpr); ok && ta.Type != nil && RType(info.TypeOf(e)) == "Value" {
+		// a reflect.Value carried in an interface: valid by assumption A1 (the
+		// senders inside the package are checked at their call sites)
+		return "ta@" + ri.at(e)
+	}
 	return "unk@" + ri.at(e)
 }
 
@@ -318,9 +321,9 @@ func (ri *RInterp) idxCanon(e ast.Expr) string {
 	return ""
 }
 
-// pureCallee lists callees that neither retain nor modify a reflect.Value /
+// rPureCallee lists callees that neither retain nor modify a reflect.Value /
 // slice argument.
-func pureCallee(q string) bool {
+func rPureCallee(q string) bool {
 	switch {
 	case strings.HasPrefix(q, "fmt."), strings.HasPrefix(q, "log."), strings.HasPrefix(q, "errors."):
 		return true
@@ -347,8 +350,8 @@ func (ri *RInterp) exec(call *ast.CallExpr, s S, ents map[ast.Expr]string) S {
 		}
 	}
 	fresh := func(ent string, mask uint32) string {
-		s = resetEnt(s, ent)
-		s = setMask(s, ent, mask)
+		s = rResetEnt(s, ent)
+		s = rSetMask(s, ent, mask)
 		return ent
 	}
 	switch {
@@ -403,7 +406,7 @@ func (ri *RInterp) exec(call *ast.CallExpr, s S, ents map[ast.Expr]string) S {
 		case "Value.MapIndex":
 			ents[call] = fresh(X+".mi@"+pos, RAllKinds)
 		case "Value.Set":
-			s = killVal(s, X)
+			s = rKillVal(s, X)
 			if len(call.Args) == 1 {
 				Y := ri.entOf(call.Args[0], s, ents)
 				if s.Get("nn:"+Y) == "T" {
@@ -414,15 +417,15 @@ func (ri *RInterp) exec(call *ast.CallExpr, s S, ents map[ast.Expr]string) S {
 				}
 			}
 		case "Value.SetLen", "Value.SetCap", "Value.Grow", "Value.SetZero", "Value.Clear":
-			s = killVal(s, X)
+			s = rKillVal(s, X)
 		case "Value.SetMapIndex":
 			// length changes; nil-ness does not
-			s = filterKeys(s, func(tag, a, b string) bool { return (tag == "rl" || tag == "rc") && entCovers(X, b) })
+			s = rFilterKeys(s, func(tag, a, b string) bool { return (tag == "rl" || tag == "rc") && rEntCovers(X, b) })
 		default:
 			if t := info.TypeOf(call); RType(t) != "" {
 				ents[call] = fresh("unk@"+pos, RAllKinds)
 				if RType(t) == "Type" || RType(t) == "Kind" {
-					s = setMask(s, ents[call], RAllValid)
+					s = rSetMask(s, ents[call], RAllValid)
 				}
 			}
 		}
@@ -446,7 +449,7 @@ func (ri *RInterp) exec(call *ast.CallExpr, s S, ents map[ast.Expr]string) S {
 			tm := ri.Mask(T, s)
 			e := fresh("new@"+pos, RK(reflect.Pointer))
 			s = s.Set("nn:"+e, "T")
-			s = setMask(s, e+".elem", tm&^RInvalid)
+			s = rSetMask(s, e+".elem", tm&^RInvalid)
 			ents[call] = e
 		case "reflect.Zero":
 			ents[call] = fresh("zero@"+pos, ri.Mask(arg(0), s)&^RInvalid)
@@ -507,13 +510,13 @@ func (ri *RInterp) exec(call *ast.CallExpr, s S, ents map[ast.Expr]string) S {
 	if _, isConv := info.Types[call.Fun]; isConv && info.Types[call.Fun].IsType() {
 		return s
 	}
-	if !pureCallee(q) {
+	if !rPureCallee(q) {
 		for _, a := range call.Args {
 			a = ast.Unparen(a)
 			switch RType(info.TypeOf(a)) {
 			case "Value":
 				if _, isCall := a.(*ast.CallExpr); !isCall {
-					s = killVal(s, ri.entOf(a, s, ents))
+					s = rKillVal(s, ri.entOf(a, s, ents))
 				}
 			case "":
 				if v := ri.localVar(a); v != nil {
@@ -542,11 +545,10 @@ func (ri *RInterp) exec(call *ast.CallExpr, s S, ents map[ast.Expr]string) S {
 				if sum != nil && !sum.MayInvalid {
 					mask = RAllValid
 				}
-				s = resetEnt(s, e)
-				s = setMask(s, e, mask)
-				ents[tupleKey{call, i}.expr()] = e
+				s = rResetEnt(s, e)
+				s = rSetMask(s, e, mask)
+				ents[rTupleKey{call, i}.expr()] = e
 			}
-			ri.tupleEnts(call, s, ents, tup, sum, base)
 		} else if RType(t) != "" {
 			mask := RAllKinds
 			if callee != nil && ri.Sums != nil {
@@ -561,27 +563,24 @@ func (ri *RInterp) exec(call *ast.CallExpr, s S, ents map[ast.Expr]string) S {
 }
 
 // tuple results are looked up by (call, index) when the assignment is bound.
-type tupleKey struct {
+type rTupleKey struct {
 	call *ast.CallExpr
 	i    int
 }
 
-var tupleExprs = map[tupleKey]ast.Expr{}
+var rTupleExprs = map[rTupleKey]ast.Expr{}
 
-func (k tupleKey) expr() ast.Expr {
-	if e, ok := tupleExprs[k]; ok {
+func (k rTupleKey) expr() ast.Expr {
+	if e, ok := rTupleExprs[k]; ok {
 		return e
 	}
 	e := &ast.BadExpr{From: k.call.Pos(), To: k.call.End()}
-	tupleExprs[k] = e
+	rTupleExprs[k] = e
 	return e
 }
 
-func (ri *RInterp) tupleEnts(call *ast.CallExpr, s S, ents map[ast.Expr]string, tup *types.Tuple, sum *RSummary, base string) {
-}
-
-// sortedKeys is a small helper for deterministic iteration.
-func sortedKeys(m map[string]int64) []string {
+// rSortedKeys is a small helper for deterministic iteration.
+func rSortedKeys(m map[string]int64) []string {
 	ks := make([]string, 0, len(m))
 	for k := range m {
 		ks = append(ks, k)
